@@ -327,6 +327,17 @@ pub fn run(ctx: &Ctx) -> i32 {
     let bases: Vec<(Base, usize)> = vec![
         (mk_base("b1", gen::b1()), 2),
         (mk_base("b2", gen::b2()), if thorough { 2 } else { 1 }),
+        // frames of duration 0 (a reader might fall back to the header's deprecated speed field)
+        (mk_base("b1z", {
+            let mut f = gen::b1();
+            for (i, fr) in f.frames.iter_mut().enumerate() {
+                if i % 2 == 1 || i + 1 == 0 {
+                    fr.duration = 0;
+                }
+            }
+            f.frames[0].duration = 0;
+            f
+        }), 1),
         (mk_base("b3", gen::b3()), if thorough { 2 } else { 1 }),
         (mk_base("d1", gen::d1(&Fmt::Rgba)), if thorough { 2 } else { 1 }),
         (mk_base("d1i", gen::d1(&Fmt::Indexed(4))), 1),
